@@ -916,7 +916,12 @@ def format_toc(obj: model.Documentable) -> Optional[Tag]:
 
     if obj.parsed_docstring:
         if obj.system.options.sidebartocdepth > 0:
-            toc = obj.parsed_docstring.get_toc(depth=obj.system.options.sidebartocdepth)
+            try:
+                toc = obj.parsed_docstring.get_toc(depth=obj.system.options.sidebartocdepth)
+            except Exception:
+                # A docstring that cannot be converted has no table of contents,
+                # the failure itself is reported when the docstring is rendered.
+                toc = None
             if toc:
                 return safe_to_stan(toc, obj.docstring_linker, obj, report=False,
                     fallback=lambda _,__,___:BROKEN)
